@@ -5,6 +5,10 @@ Tie:  H  the hand model (lean/XrsVerif/Model/Regions.lean: two-pass labelling wi
          labels, clamped windows) is run by the Lean driver on the same rasters as the real
          `xrspatial.zonal.regions` / `_area_connectivity`; the *labels* are compared exactly (the model
          reproduces uid assignment and merging towards the minimum, not only the partition).
+      T3 the program `Gen.IL.areaConnectivity`, regenerated statement by statement from `_area_connectivity`
+         (harness/facts_il.py) and proved to compute the hand model (Props/C16.lean `generated_*`), is run by the
+         driver at IEEE doubles against the numba function on the same rasters (`il:areaConnectivity`, il_corr.py):
+         every returned number and the input array are compared exactly.
       G  window offsets/clamping, the closeness test and the wrapper's DataArray arguments are
          regenerated from the source (harness/facts_regions.py -> Gen/RegionsFacts.lean) and pinned by
          theorems of Props/C16.lean.
@@ -21,6 +25,7 @@ import numpy as np
 import xarray as xr
 from numba import njit
 
+import il_corr
 from common import Driver, grid_tok, tok, untok
 
 PROP = "C16"
@@ -782,7 +787,10 @@ def run(r, scale=1):
               "logical raster; every enumerated raster with h,w >= 2 is also run F-ordered; many: rasters up to ~1000 (thorough "
               "1600) cells with 60-1000 provisional labels (alternating rows with bridges, isolated cells with stamped shapes, "
               "dense random); narrow: uint8 / int8 / int16 rasters with more provisional labels than "
-              "the dtype counts; wild (model only): values within / just outside rtol, +-inf, ints >= 1e5; non-trivial = "
+              "the dtype counts; wild (model only): values within / just outside rtol, +-inf, ints >= 1e5; il:areaConnectivity: "
+              "the generated program vs the numba function on rasters <= 9x12 (random, late-merging shapes, many labels, "
+              "close-but-unequal values, +-inf, NaN frames / rows / scatter / all, 1xN / Nx1, n = 4 / 8, C / F / transposed / "
+              "strided / negative-stride arrays); non-trivial = "
               "at least two cells and two distinct values or a NaN")
     requests, pending = [], []
     for c in r.corpus():
@@ -827,9 +835,26 @@ def run(r, scale=1):
         r.case(c, nontrivial=False, tags=["bad-n"])
         check_case(r, c, requests, pending)
     flush_model(r, requests, pending, "random")
+    # --- layer T3: the generated program (the subject of `generated_refines`) against the numba function
+    il_corr.stream(r, ["areaConnectivity"], {"quick": 500, "thorough": 5000}[r.tier] * scale)
     r.assumptions.append("float closeness (rtol/atol) is modelled in exact rational arithmetic; values are integers, "
                          "dyadics, or at least 1e-7 relative away from the tolerance boundary")
     r.trusted.append("numba / numpy semantics of _area_connectivity (compared on the generated cases only)")
+    r.trusted.append("layer T3: the translator harness/facts_il.py (validated by the il:areaConnectivity stream); numba's int64 "
+                     "wrap-around and float32 rounding of labels above 2^24 are outside ILang")
+
+
+def il_to_grid(c):
+    """an `il:areaConnectivity` case as a case for the property oracle: the same raster under the same layout;
+    outside the property's domain (non-integers, +-inf, |v| >= 5e4) only the wrapper checks apply"""
+    d = np.array(c["case"]["data"], dtype=np.float64)
+    vals = d[~np.isnan(d)]
+    integer = bool(np.all(np.isfinite(vals)) and np.all(vals == np.round(vals)) and np.all(np.abs(vals) < 5e4))
+    g = dict(kind="grid", n=c["case"]["n"], dtype="float64", grid=[[tok(v) for v in row] for row in d.tolist()],
+             tag="il", layout=c["case"].get("lay", "C"))
+    if not integer:
+        g["wild"] = True
+    return g
 
 
 def search(r):
@@ -839,6 +864,8 @@ def search(r):
         c = d["case"]
         if isinstance(c, dict) and c.get("kind"):
             check_case(r, c, requests, pending, model=False)
+        elif isinstance(c, dict) and c.get("prog") == "areaConnectivity":
+            check_case(r, il_to_grid(c), requests, pending, model=False)
     if r.failures:
         return
     n = {"quick": 3000, "thorough": 20000}[r.tier]
@@ -852,6 +879,10 @@ def search(r):
 
 def replay(r, body):
     c = body["case"]
+    if isinstance(c, dict) and "prog" in c:        # a translator-validation case (layer T3)
+        bad = il_corr.replay_case(c)
+        print("still disagrees with the generated program" if bad else "agrees on the current tree")
+        return bad
     requests, pending = [], []
     check_case(r, c, requests, pending, model=False)
     if r.failures:
